@@ -7,4 +7,4 @@ ASSUMPTIONS = _bc.ASSUMPTIONS
 
 
 def run(ck):
-    _bc.run_bc(ck, "c20", set("c20_gate c20_single_connack c20_responses c20_tokens".split()))
+    _bc.run_bc(ck, "c20", set("c20_gate c20_single_connack c20_responses c20_tokens c20_acted_on c20_closes".split()))  # the last two added by the audit (audit/C20.md)
